@@ -85,10 +85,9 @@ def showReply (r : ReplyMsg) : String :=
 
 /-- Per-request results as the mode lets the harness observe them: the error class where
 `Process` is called directly; ok/err from the HTTP status; for a whole connection of the
-simple server the return value of its loop when every request was consumed exactly ("end"
-otherwise: what the loop does after an undecodable request is not modelled). -/
+simple server the return value of its loop (nil at a clean end of input, else the first error). -/
 def showResults (mode : String) (clean : Bool) (rs : List (Res Unit)) : String :=
-  if mode == "simple" then (if clean then "ok" else "end")
+  if mode == "simple" then (if clean || rs.all (·.isOk) then "ok" else "err")
   else if mode == "http" then ",".intercalate (rs.map fun r => if r.isOk then "ok" else "err")
   else ",".intercalate (rs.map fun r => showRes (fun _ => "ok") r)
 
